@@ -59,3 +59,16 @@ func (r *Rng) Weighted(w []int) int {
 	}
 	return len(w) - 1
 }
+
+// Perm returns a seeded permutation of 0..n-1.
+func (r *Rng) Perm(n int) []int {
+	o := make([]int, n)
+	for i := range o {
+		o[i] = i
+	}
+	for i := n - 1; i > 0; i-- {
+		j := r.Intn(i + 1)
+		o[i], o[j] = o[j], o[i]
+	}
+	return o
+}
